@@ -74,7 +74,7 @@ def band_wavelengths(nb):
     return [1.0 + 0.75 * j for j in range(nb)]
 
 
-def make_extinction(K, wavs, scale=1.0, chi_unit=None, wav_unit=None, variety=None):
+def make_extinction(K, wavs, scale=1.0, chi_unit=None, wav_unit=None, variety=None, vfactor=1.0):
     """law with opacity K_j*scale at wavelength j and 2*scale at 0.55 micron: k_j = -K_j/5.
     variety (int): the representation of the law (wavelength unit, opacity unit, overall factor) is drawn from it --
     the pattern k does not depend on the representation (C14), so every fit property must hold for all of them."""
@@ -84,7 +84,8 @@ def make_extinction(K, wavs, scale=1.0, chi_unit=None, wav_unit=None, variety=No
         wav_unit = wav_unit or [u.micron, u.nm, u.angstrom, u.cm, u.micron, u.mm][variety % 6]
         chi_unit = chi_unit or [u.cm ** 2 / u.g, u.m ** 2 / u.kg][(variety // 6) % 2]
         scale = scale * [1.0, 7.5, 0.01][(variety // 12) % 3]
-    nodes = sorted([(0.55, 2.0)] + [(w, float(k)) for w, k in zip(wavs, K)] + [(0.3, 5.0), (50.0, 0.0)])
+    # vfactor: the opacity at V is multiplied by it, i.e. every coefficient k_j is divided by it (spec theorem ScaleK)
+    nodes = sorted([(0.55, 2.0 * vfactor)] + [(w, float(k)) for w, k in zip(wavs, K)] + [(0.3, 5.0 * vfactor), (50.0, 0.0)])
     law = Extinction()
     wu = wav_unit or u.micron
     cu = chi_unit or (u.cm ** 2 / u.g)
